@@ -15,7 +15,7 @@ def S(f):
     return ('init', (('P', 'self'), f))
 
 
-VOCAB = ('as_mut_ptr', 'as_ptr', 'add', 'write', 'read', 'drop_in_place', 'uninit', 'next_idx', 'capacity', 'len',
+VOCAB = ('as_mut_ptr', 'as_ptr', 'cast', 'add', 'write', 'read', 'drop_in_place', 'uninit', 'next_idx', 'capacity', 'len',
          'can_push', 'is_empty', 'panic', 'begin_panic', 'assert_failed', 'panic_fmt')
 
 
